@@ -56,24 +56,25 @@ TIME_LIMIT = {"quick": 55, "thorough": 300}
 SANITIZER_PLAN = {
     # property -> tier -> list of stages
     "quick": {
-        "C01": ["explore", "bigindex", "probe"], "C02": ["explore", "probe"], "C03": ["explore", "probe"], "C04": ["explore", "probe"],
-        "C05": ["explore"], "C06": ["explore", "probe"],
-        "C07": ["explore", "probe"], "C08": ["explore"], "C10": ["explore"], "C11": ["explore"],
+        "C01": ["explore", "bigindex", "hugechunk", "probe"], "C02": ["explore", "probe"], "C03": ["explore", "hugechunk", "probe"],
+        "C04": ["explore", "hugechunk", "probe"],
+        "C05": ["explore", "hugechunk"], "C06": ["explore", "probe"],
+        "C07": ["explore", "probe"], "C08": ["explore"], "C10": ["explore"], "C11": ["explore", "hugechunk"],
         "C13": ["explore", "miri"], "C14": ["explore", "miri"],
     },
     "thorough": {
-        "C01": ["explore", "bigindex", "probe", "release", "miri", "asan", "tsan"],
+        "C01": ["explore", "bigindex", "hugechunk", "probe", "release", "miri", "asan", "tsan"],
         "C02": ["explore", "bigindex", "probe", "release", "miri"],
-        "C03": ["explore", "bigindex", "probe", "release", "asan", "tsan"],
-        "C04": ["explore", "bigindex", "probe", "release"],
-        "C05": ["explore", "release", "tsan", "miri"],
+        "C03": ["explore", "bigindex", "hugechunk", "probe", "release", "asan", "tsan"],
+        "C04": ["explore", "bigindex", "hugechunk", "probe", "release"],
+        "C05": ["explore", "hugechunk", "release", "tsan", "miri"],
         "C06": ["explore", "probe", "release", "miri", "asan"],
         "C07": ["explore", "probe", "release", "asan", "tsan"],
         "C13": ["explore", "release", "miri", "asan"],
         "C14": ["explore", "release", "miri", "asan"],
         "C08": ["explore"],
         "C10": ["explore"],
-        "C11": ["explore"],
+        "C11": ["explore", "hugechunk"],
         "C15": ["release"],
     },
 }
@@ -290,11 +291,19 @@ def replay(path, harness, repo):
         argv = [os.path.join(harness, "target", "release", "vbig"), rec["property"], str(rec.get("seed", 0)), "", "3"]
         log("replaying: " + " ".join(argv))
         return subprocess.run(argv, env=ENV_BASE).returncode
-    if rec.get("key") == "probe":
+    if rec.get("key") == "hugechunk":
         with BuildLock(harness):
             prepare_lock(harness, repo)
             rc, out = cargo(harness, ["build", "--offline", "-p", "vbig", "--release"], env={"CARGO_TARGET_DIR": os.path.join(harness, "target")})
-        argv = [os.path.join(harness, "target", "release", "vbig"), "probe", rec["property"], str(rec.get("seed", 0)), "", "8" if rec.get("tier") == "quick" else "60"]
+        argv = [os.path.join(harness, "target", "release", "vbig"), "hugechunk", rec["property"], str(rec.get("seed", 0)), ""]
+        log("replaying: " + " ".join(argv))
+        return subprocess.run(argv, env=ENV_BASE).returncode
+    if rec.get("key") == "probe" or rec.get("stage") == "probe":
+        pkg = "probe_" + rec["property"].lower()
+        with BuildLock(harness):
+            prepare_lock(harness, repo)
+            rc, out = cargo(harness, ["build", "--offline", "-p", pkg], env={"CARGO_TARGET_DIR": os.path.join(harness, "target")})
+        argv = [os.path.join(harness, "target", "debug", pkg), rec["property"], str(rec.get("seed", 0)), "", "6" if rec.get("tier") == "quick" else "40"]
         log("replaying: " + " ".join(argv))
         return subprocess.run(argv, env=ENV_BASE).returncode
     if stage != "plain":
@@ -388,6 +397,8 @@ def run_sanitizer_stage(st, prop, tier, seed, root, harness, repo, nproc, work):
         return run_bigindex(prop, tier, seed, harness, repo, work)
     if st == "probe":
         return run_bigindex(prop, tier, seed, harness, repo, work, probe=True)
+    if st == "hugechunk":
+        return run_bigindex(prop, tier, seed, harness, repo, work, huge=True)
     if st == "explore":
         ok, msg = build_plain(harness, repo)
         if not ok:
@@ -448,18 +459,24 @@ def run_sanitizer_stage(st, prop, tier, seed, root, harness, repo, nproc, work):
     return None
 
 
-def run_bigindex(prop, tier, seed, harness, repo, work, probe=False):
-    """source positions beyond 2^32: plain usize pipelines over 0..2^32+k in a small release-mode program"""
+def run_bigindex(prop, tier, seed, harness, repo, work, probe=False, huge=False):
+    """bigindex: source positions beyond 2^32 (plain usize pipelines over 0..2^32+k, release build);
+    probe: plain-type probes over the std collections the instrumented table does not have (dev build, one small
+    binary per property)"""
+    pkg = ("probe_" + prop.lower()) if probe else "vbig"
     with BuildLock(harness):
         prepare_lock(harness, repo)
-        rc, out = cargo(harness, ["build", "--offline", "-p", "vbig", "--release"], env={"CARGO_TARGET_DIR": os.path.join(harness, "target")})
+        args = ["build", "--offline", "-p", pkg] + ([] if probe else ["--release"])
+        rc, out = cargo(harness, args, env={"CARGO_TARGET_DIR": os.path.join(harness, "target")})
         if rc != 0:
-            log("vbig build failed:\n" + out[-2000:])
+            log("%s build failed:\n" % pkg + out[-2000:])
             return None
-    name = "probe" if probe else "bigindex"
+    name = "probe" if probe else ("hugechunk" if huge else "bigindex")
     outp = os.path.join(work, name + ".json")
     if probe:
-        argv = [os.path.join(harness, "target", "release", "vbig"), "probe", prop, str(seed), outp, "8" if tier == "quick" else "60"]
+        argv = [os.path.join(harness, "target", "debug", pkg), prop, str(seed), outp, "6" if tier == "quick" else "40"]
+    elif huge:
+        argv = [os.path.join(harness, "target", "release", "vbig"), "hugechunk", prop, str(seed), outp]
     else:
         argv = [os.path.join(harness, "target", "release", "vbig"), prop, str(seed), outp, "1" if tier == "quick" else "3"]
     res = run_shards([argv], [{}], [outp], 900, name)
@@ -468,12 +485,14 @@ def run_bigindex(prop, tier, seed, harness, repo, work, probe=False):
     if raw is not None:
         cases = raw.get("cases", [])
         nev = raw.get("cases_count", len(cases))
-        xk = "plain_type_probe_runs(std maps/sets/heaps/lists/arrays/copied/cloned x chains x terminals)" if probe else "pipelines_over_more_than_2^32_positions"
+        xk = ("plain_type_probe_runs(std maps/sets/heaps/lists/arrays/copied/cloned x chains x terminals)" if probe
+              else ("runs_with_chunk_sizes_beyond_2^20_over_millions_of_elements" if huge else "pipelines_over_more_than_2^32_positions"))
         rep = dict(evaluations=nev, nontrivial=nev, multi_worker=0, events=0, closure_calls=0, inconclusive=0,
                    by_mode={"S": 0, "F": nev, "Q": 0}, extra={xk: nev},
                    distinct=[hashlib.sha1(c.encode()).hexdigest()[:16] for c in cases], signatures=[], other_props={},
                    samples=[{"case": c, "n": raw.get("n")} for c in cases[:1]], planned=len(cases), timed_out=False,
-                   violations=[dict(prop=prop, key=name, msg=m, idx=0, seed=seed, tier=tier, small=False, case=m[:300], mode="F", picks="", script="")
+                   violations=[dict(prop=prop, key=(re.match(r"\[key=([^\]]+)\]", m).group(1) if m.startswith("[key=") else name),
+                                    msg=m, idx=0, seed=seed, tier=tier, small=False, case=m[:300], mode="F", picks="", script="", probe=name)
                                for m in raw.get("violations", [])])
         r["report"] = rep
     return res
@@ -614,6 +633,9 @@ def conclude(prop, tier, seed, root, stages, t_start, evid_path):
                                      idx=progress_idx(r["progress"]), seed=seed, tier=tier, small=small, case=r["progress"][:300], mode="?", picks="", stage=name))
                 else:
                     broken.append("%s shard watchdog expired (inconclusive): %s" % (name, (r["progress"] or "")[:200]))
+            elif rep is None and kind is None and r["rc"] in (-9, -15, -2, 137, 143):
+                # killed from outside (OOM killer, operator, harness): decides nothing
+                broken.append("%s shard was killed by signal %s (inconclusive) while executing: %s" % (name, r["rc"], (r["progress"] or "?")[:200]))
             elif rep is None:
                 if kind is not None or (r["rc"] is not None and r["rc"] != 0):
                     sc["sanitizer_reports"] += 1 if kind else 0
